@@ -73,7 +73,8 @@ def gen_leaf(g, fid0=0, want_derived=None, allow_weights=True, kinds=None, small
             size *= sum(l["w"] for l in fs[c]["levels"])
         tries += 1
     cs = []
-    kinds = kinds if kinds is not None else ["Exclude", "Pin", "MinimumTrials"] + RUN_KINDS + ["ExactlyK"]
+    kinds = kinds if kinds is not None else ["Exclude", "Pin", "MinimumTrials"] + RUN_KINDS + ["ExactlyK"] + \
+        (["Sequential"] if rng.random() < 0.3 else [])
     for _ in range(rng.choice([0, 1, 1, 2])):
         if not kinds:
             break
@@ -342,6 +343,16 @@ def _corpus_families(big):
         inner2 = {"k": "cross", "design": [0, 1], "crossing": [0], "rcc": True, "cs": []}
         out.append({"factors": [c, t], "block": {"k": "repeat", "b": inner2,
                     "cs": [{"k": "MinimumTrials", "n": 6}, {"k": "AtMostKInARow", "n": k, "f": 1, "l": 0}]}})
+    out.mark()
+    # Sequential on a crossed factor: alone, with MinimumTrials (partial last cycle), with another crossed factor,
+    # under Repeat
+    s3, s2 = _sf(0, ["c1", "c2", "c3"]), _sf(1, ["x", "y"])
+    for cr in ([0], [0, 1]):
+        for extra in ([], [{"k": "MinimumTrials", "n": 2 * (3 if cr == [0] else 6) - 1}]):
+            out.append({"factors": [s3, s2], "block": {"k": "cross", "design": [0, 1], "crossing": cr, "rcc": True,
+                        "cs": [{"k": "Sequential", "f": 0}] + extra}})
+    out.append({"factors": [s3, s2], "block": {"k": "repeat", "cs": [{"k": "MinimumTrials", "n": 6}],
+                "b": {"k": "cross", "design": [0, 1], "crossing": [0], "rcc": True, "cs": [{"k": "Sequential", "f": 0}]}}})
     out.mark()
     # weighted crossed levels with an incomplete crossing (require_complete_crossing=False): the exclusion removes a
     # combination that contains the weighted level, the weighted level itself, or acts through a derived level
